@@ -171,8 +171,9 @@ def projVal (axes : List (List Rat)) (S : List Nat) (pos : List Nat) : List Rat 
 def projLeftPt (axes : List (List Rat)) (pp : List Nat) : List Rat :=
   (List.range pp.length).map (fun k => leftPoint (axes.getD k []) (pp.getD k 0))
 
+/-- `grid.right_point(projected_position)`: `axes[k][min(len(axes[k]) - 1, c + 1)]`, same indexing (spatial.py:91-96) -/
 def projRightPt (axes : List (List Rat)) (pp : List Nat) : List Rat :=
-  (List.range pp.length).map (fun k => rightPointN (len0 axes) (axes.getD k []) (pp.getD k 0))
+  (List.range pp.length).map (fun k => rightPoint (axes.getD k []) (pp.getD k 0))
 
 /-- `CTMCGrid.middle` on tuples -/
 def midT (a b : List Rat) : List Rat := List.zipWith amid a b
